@@ -13,5 +13,11 @@ Print Assumptions C06_observable_reads_its_site.
 Theorem C06_digits_roundtrip : forall l, binary l -> to_digits (length l) (kron_idx l) = l.
 Proof. exact to_digits_kron. Qed.
 Print Assumptions C06_digits_roundtrip.
+(* two-site observables and two-site noise operators of the dense solvers (embedded by _embed_generic on an adjacent pair) act on
+   the digits of exactly their two sites, in that order *)
+Theorem C06_pair_operator_reads_its_sites : forall sigma s, binary sigma -> S s < length sigma ->
+  pair_digit (length sigma) s (solver_state_idx sigma) = 2 * nth s sigma 0 + nth (S s) sigma 0.
+Proof. exact pair_reads_its_sites. Qed.
+Print Assumptions C06_pair_operator_reads_its_sites.
 Example C06_example : solver_state_idx [1; 0; 0] = 4 /\ vec_idx [1; 0; 0] = 1 /\ z_sign 3 0 4 = true /\ z_sign 3 2 4 = false.
 Proof. vm_compute. repeat split. Qed.
